@@ -86,6 +86,9 @@ def hap_index(row, M):
     return i
 
 
+_pool_turn = 0
+
+
 def eval_mix(s, rnd):
     P, N, A = s["P"], s["N"], s["A"]
     G = np.array(s["G"], dtype=np.int8)
@@ -141,6 +144,50 @@ def eval_mix(s, rnd):
     o["lla_c_hit"] = fl(call(CL.log_likelihood_alleles_cached, T, counts, haps, alleles[perm], d))
     o["lla_c_size"] = len(d)
     srt = np.sort(alleles)
+    # (PaddingInvariant) the locus extended by PAD SNVs without any base call, after / before the real ones
+    PAD = 70
+    R = len(cells)
+    gapT = np.full((R, PAD, M), np.nan)
+    zeros = np.zeros((P, PAD), dtype=np.int8)
+    lead = zeros.copy()
+    lead[:, 0] = 1
+    Te, Ge = np.concatenate([T, gapT], axis=1), np.concatenate([G, zeros], axis=1)
+    Ts, Gs = np.concatenate([gapT, T], axis=1), np.concatenate([lead, G], axis=1)
+    o["ll_padend"] = fl(call(AL.log_likelihood, Te, Ge, counts))
+    o["ll_padstart"] = fl(call(AL.log_likelihood, Ts, Gs, counts))
+    o["lls_padend"] = fl(call(AL.log_likelihood_structural_change, Te, Ge, np.arange(P), (0, 0), counts))
+    o["lls_padstart"] = fl(call(AL.log_likelihood_structural_change, Ts, Gs, np.arange(P)[::-1].copy(), (0, PAD), counts))
+    cache = AL.new_log_likelihood_cache(P, N + PAD, M)
+    r1 = call(AL.log_likelihood_cached, Te, Ge, counts, cache)
+    if isinstance(r1, str):
+        o["ll_c_padmiss"] = o["ll_c_padhit"] = r1
+    else:
+        o["ll_c_padmiss"] = float(r1[0])
+        # a different genotype that agrees with the first over the padding only
+        r2 = call(AL.log_likelihood_cached, Te, Ge, counts, r1[1])
+        o["ll_c_padhit"] = fl(r2)
+    hz = np.zeros((len(haps), PAD), dtype=np.int8)
+    hl = hz.copy()
+    hl[:, 0] = 1
+    haps_e, haps_s = np.concatenate([haps, hz], axis=1), np.concatenate([hl, haps], axis=1)
+    o["lla_padend"] = fl(call(CL.log_likelihood_alleles, Te, counts, haps_e, alleles))
+    o["lla_padstart"] = fl(call(CL.log_likelihood_alleles, Ts, counts, haps_s, alleles))
+    o["ped_padend"] = fl(call(PL.log_likelihood_alleles_cached, Te, counts, haps_e, 0, srt, None))
+    # (PoolingInvariant) a pool of POOL copies of the genotype: more than 127 copies of every allele it carries
+    global _pool_turn
+    _pool_turn += 1
+    if not PY or _pool_turn % 4 == 0:
+        POOL = 130
+        Gp = np.tile(G, (POOL, 1))
+        ap = np.tile(alleles, POOL)
+        o["ll_pool"] = fl(call(AL.log_likelihood, T, Gp, counts))
+        o["lla_pool"] = fl(call(CL.log_likelihood_alleles, T, counts, haps, np.sort(ap)))
+        o["lla_pool_unsorted"] = fl(call(CL.log_likelihood_alleles, T, counts, haps, ap))
+        o["ped_pool"] = fl(call(PL.log_likelihood_alleles_cached, T, counts, haps, 0, np.sort(ap), None))
+    # the allele-indexed entry points on the long locus (columns repeated TILE times)
+    haps_t = np.tile(haps, (1, TILE))
+    o["lla_tiled"] = [fl(call(CL.log_likelihood_alleles, Tt[k: k + 1], np.ones(1, dtype=np.int64), haps_t, alleles)) for k in range(len(cells))]
+    o["ped_tiled"] = [fl(call(PL.log_likelihood_alleles_cached, Tt[k: k + 1], np.ones(1, dtype=np.int64), haps_t, 0, srt, None)) for k in range(len(cells))]
     o["ped_none"] = fl(call(PL.log_likelihood_alleles_cached, T, counts, haps, 0, srt, None))
     d2 = pair_dict()
     o["ped_miss"] = fl(call(PL.log_likelihood_alleles_cached, T, counts, haps, 3, srt, d2))
